@@ -43,6 +43,7 @@ size_t libwifi_add_action_detail(struct libwifi_action_detail *detail, const uns
 void libwifi_free_action_detail(struct libwifi_action_detail *detail) {
     if (detail->detail_length != 0) {
         free(detail->detail);
+        detail->detail = NULL;
         detail->detail_length = 0;
     }
 }
